@@ -71,7 +71,8 @@ package dtls
 
 //@ func Conn.prepareLegacyPacket
 //@ watch CipherSuite.Decrypt local.markPacketAsValid Conn.legacyReplayMarker
-//@ requires args: wfConn(c) && detectorsOK(c)
+//@ requires args: wfConn(c)
+//@ requires detectors: detectorsOK(c)
 //@ ensures no-commit-during-prepare: !called("local.markPacketAsValid")
 //@ ensures protected-authenticated: result1 && result0.header.Epoch != 0 ==> called("CipherSuite.Decrypt") && retErr("CipherSuite.Decrypt", 1) == nil
 //@ ensures replay-checked: result1 ==> called("Conn.legacyReplayMarker") && retBool("Conn.legacyReplayMarker", 1)
@@ -89,7 +90,8 @@ package dtls
 
 //@ func Conn.legacyReplayMarker
 //@ watch replaydetector.New ReplayDetector.Check
-//@ requires args: wfConn(c) && header != nil && detectorsOK(c)
+//@ requires args: wfConn(c) && header != nil
+//@ requires detector-present: int(header.Epoch) < len(RD(c)) ==> RD(c)[int(header.Epoch)] != nil
 //@ ensures check-once: ncalls("ReplayDetector.Check") == 1
 //@ ensures checked-own-number: argU64("ReplayDetector.Check", 1) == old(header.SequenceNumber)
 //@ ensures result-is-check: result1 == retBool("ReplayDetector.Check", 1)
@@ -98,13 +100,13 @@ package dtls
 //@ ensures window-from-config: called("replaydetector.New") ==> argAs("replaydetector.New", 0, c.replayProtectionWindow) == c.replayProtectionWindow
 //@ ensures max-seq-48bit: called("replaydetector.New") ==> argU64("replaydetector.New", 1) == 0x0000FFFFFFFFFFFF
 //@ ensures existing-kept: forall(0, len(old(RD(c))), func(e int) bool { return sameRef(RD(c)[e], old(RD(c)[e])) })
-//@ ensures detectors-ok: detectorsOK(c)
+//@ ensures new-detectors-nonnil: forall(len(old(RD(c))), len(RD(c)), func(e int) bool { return RD(c)[e] != nil })
 //@ ensures wf-kept: wfConn(c)
 //@ loop #1: wf-kept: wfConn(c)
 //@ loop #1: same-common: common == CS(c) && common != nil
 //@ loop #1: grows: len(common.ReplayDetector) >= len(old(RD(c)))
 //@ loop #1: existing-kept: forall(0, len(old(RD(c))), func(e int) bool { return sameRef(common.ReplayDetector[e], old(RD(c)[e])) })
-//@ loop #1: all-nonnil: forall(0, len(common.ReplayDetector), func(e int) bool { return common.ReplayDetector[e] != nil })
+//@ loop #1: new-nonnil: forall(len(old(RD(c))), len(common.ReplayDetector), func(e int) bool { return common.ReplayDetector[e] != nil })
 //@ loop #1: window-from-config: called("replaydetector.New") ==> argAs("replaydetector.New", 0, c.replayProtectionWindow) == c.replayProtectionWindow && argU64("replaydetector.New", 1) == 0x0000FFFFFFFFFFFF
 //@ loop #1: not-checked-yet: !called("ReplayDetector.Check")
 //@ end
